@@ -6,6 +6,23 @@ import os
 VERIF = os.path.dirname(os.path.dirname(os.path.abspath(__file__)))
 
 CHECKS = {
+    "C11": {
+        "text": "Explicit-state breadth-first search over operation histories {write source, add_named_file, remove, new instance} (13 operations, "
+        "2 names x 2 source files x 3 contents) to depth 5 (thorough 7) on the real FileManager, models/refstore.Files stepped in "
+        "lock-step; all store invariants of the statement are evaluated after every operation and from a fresh instance; "
+        "canonical states (model + masked tree) de-duplicated.",
+        "design": "3 / C11",
+        "note": "trusted: models/refstore.Files (a dict and a list); canonical-state merge argument in DESIGN.md; local filesystem only (no S3)",
+        "technique": "explicit-state BFS over operation histories replayed on the real store against an abstract model, invariants on every transition",
+    },
+    "C12": {
+        "text": "Every ordered list of 1..3 (thorough 4) distinct texts from a 9-text alphabet round-tripped through add/get/#id/$ref/:from/:to, and "
+        "every operation sequence of length <=3 (thorough 5) over {add 5 lists x 2 names, remove, new instance} with all lookups and "
+        "manifest growth/fingerprint checked after every step, on the real PathsManager against models/refstore.Paths.",
+        "design": "3 / C12",
+        "note": "trusted: models/refstore.Paths; identities are known by construction of the alphabet; texts compared after strip()",
+        "technique": "exhaustive enumeration of program lists and operation sequences on the real store against an abstract model",
+    },
     "C13": {
         "text": "Every position of one control component (11 forms of stop/skip/advance/last) among 1-2 (thorough: 1-3) side-effecting "
         "marker components x every file of <=4 (5) records over {firing, non-firing, blank} x scan windows, run on the real "
